@@ -38,6 +38,8 @@ a literal; parked size resolvers are scanned.
 Round 7: includes the struct-block rule of C03 (the pattern of a fixed value is what the field's own
 pack emits; the generated unpack must decode it with the field's own endianness).
 Round 8: the sub-mask walk that omits the empty sub-mask; includes the equality-shape rule of C20.
+Round 9 (F13): the pattern of a regular-expression delimiter stands in a group of its own that
+carries its flags (R12-delimiter-group).
 """
 import ast
 
